@@ -1,3 +1,4 @@
+mod alloc;
 mod anyf;
 mod framework;
 mod hasher;
@@ -9,11 +10,15 @@ mod s2h_hll;
 mod s3_reservoir;
 mod s4_digest;
 mod s5_topk;
+mod s6_memory;
 mod life;
 mod s7_lifecycle;
 mod s8_storage;
 
 use framework::*;
+
+#[global_allocator]
+static GLOBAL: alloc::Counting = alloc::Counting;
 
 fn usage() -> ! {
     eprintln!("usage: pdsim <C01..C20> [--tier quick|thorough] [--scale F] [--workers N]\n       pdsim replay <file>\n       pdsim selftest-determinism");
@@ -80,6 +85,11 @@ fn plan(ctx: &mut CheckCtx, k: f64) {
             ctx.required_probes = vec!["inflated_newcomer_while_heap_has_room", "collision_free_prefix", "prefix_with_sketch_error"];
             ctx.run::<s5_topk::S5b>(n(60_000));
         }
+        "C11" => {
+            ctx.required_probes = vec!["measurements", "growth_comparisons", "node_restart", "full_insert"];
+            ctx.assumptions.push("bound = F * documented bytes + 512 B with F = 1.5 for the bit-packed tables (Bloom, Cuckoo, Quotient, CMS, HLL) and 4 for the Vec / HashMap / BTreeSet backed ones; documented bytes include 8 bytes per hash function / sketch row for the precomputed shift table".into());
+            ctx.run::<s6_memory::S6>(n(360));
+        }
         "C19" => {
             ctx.required_probes = vec!["rng_stream_aligned_at_nonzero_position", "fork", "node_restart", "full_insert"];
             ctx.run::<s7_lifecycle::S7>(n(90_000));
@@ -130,6 +140,7 @@ fn replay(path: &str) -> i32 {
         "S2-replicas" => replay_case::<s2_replicas::S2>(&doc, prop),
         "S2h-hll-stream-transport" => replay_case::<s2h_hll::S2h>(&doc, prop),
         "S7-lifecycle" => replay_case::<s7_lifecycle::S7>(&doc, prop),
+        "S6-memory" => replay_case::<s6_memory::S6>(&doc, prop),
         "S4-digest" => replay_case::<s4_digest::S4>(&doc, prop),
         "S3a-reservoir-invariants" => replay_case::<s3_reservoir::S3a>(&doc, prop),
         "S3b-reservoir-uniformity" => replay_case::<s3_reservoir::S3b>(&doc, prop),
@@ -152,7 +163,7 @@ fn replay(path: &str) -> i32 {
 }
 
 /// Claimed properties (everything `plan` knows).
-const CLAIMED: &[&str] = &["C01", "C02", "C04", "C05", "C06", "C09", "C10", "C12", "C13", "C14", "C15", "C16", "C17", "C18", "C19", "C20"];
+const CLAIMED: &[&str] = &["C01", "C02", "C04", "C05", "C06", "C09", "C10", "C11", "C12", "C13", "C14", "C15", "C16", "C17", "C18", "C19", "C20"];
 
 /// Proves determinism on a sample: every claimed check is run in separate processes with the same
 /// seed at 1, 5 and 16 workers (and the 16-worker one twice); the event-log hashes (per-run
